@@ -6,6 +6,7 @@ package packaging
 import (
 	"errors"
 	"fmt"
+	"github.com/microsoft/yardl/tooling/internal/verifhook"
 	"os"
 	"path/filepath"
 	"regexp"
@@ -328,6 +329,7 @@ func readPackageInfo(directory string) (*PackageInfo, error) {
 // importChain is used to check for import cycles
 // depthRemaining is used to limit the depth of the import tree
 func collectPackages(parentDir string, alreadyCollected map[string]*PackageInfo, importChain map[string]bool, depthRemaining int) (*PackageInfo, error) {
+	verifhook.Emit("CollectEnter", "dir", parentDir, "depth", depthRemaining)
 	parentInfo, err := readPackageInfo(parentDir)
 	if err != nil {
 		return nil, err
@@ -345,6 +347,7 @@ func collectPackages(parentDir string, alreadyCollected map[string]*PackageInfo,
 		}
 	}
 
+	verifhook.Emit("CollectNew", "ns", parentInfo.Namespace, "dir", parentDir, "depth", depthRemaining)
 	alreadyCollected[parentInfo.Namespace] = parentInfo
 
 	if depthRemaining <= 0 {
@@ -368,6 +371,7 @@ func collectPackages(parentDir string, alreadyCollected map[string]*PackageInfo,
 			return parentInfo, err
 		}
 		importChain[parentInfo.Namespace] = false
+		verifhook.Emit("CollectChild", "ns", parentInfo.Namespace, "child", childInfo.Namespace)
 
 		// Build the Import tree
 		parentInfo.Imports[i].Package = childInfo
